@@ -9,7 +9,7 @@
    c12_spec_failures  : specification oracle on the implementation's sizes only
                         (never above the bound; no growth between successive
                         equal phases), failure code = 100 * component + kind. *)
-From IV Require Import Base.Word Model.Unwrapper Model.MemBound Model.MemBoundClose.
+From IV Require Import Base.Word Model.Unwrapper Model.MemBound Model.MemBoundClose Model.MemBoundPacers.
 Open Scope Z_scope.
 
 Definition entry := (Z * list Z * list Z)%type.
@@ -92,6 +92,26 @@ Definition dec_fq (st : Z * bool) (opc : Z) (a : list Z) : Z * bool :=
 (* cc interceptor + gcc pacer: per-stream writers *)
 Definition dec_gw (st : gw) (opc : Z) (a : list Z) : gw :=
   if opc =? 1 then gw_step st (GwBind (arg 0 a)) else gw_step st (GwUnbind (arg 0 a)).
+(* gcc leaky-bucket pacer with its streams (component 17): 1 = Write ssrc size, 2 = tick with this
+   budget (bytes), 3 = Close, 4 = AddStream, 5 = RemoveStream, 7 = AddStream with a failing writer *)
+Definition dec_lbs (st : lbs) (opc : Z) (a : list Z) : lbs :=
+  if opc =? 1 then lbs_step st (LbEnq (arg 0 a) (arg 1 a))
+  else if opc =? 2 then lbs_step st (LbRelease (arg 0 a))
+  else if opc =? 3 then lbs_step st LbClose
+  else if opc =? 4 then lbs_step st (LbAdd (arg 0 a) 1)
+  else if opc =? 5 then lbs_step st (LbRemove (arg 0 a))
+  else if opc =? 7 then lbs_step st (LbAdd (arg 0 a) 2)
+  else st.
+(* pacing interceptor with the real limiter (component 18): 1 = Write, 2 = settled (everything
+   released), 4 = InterceptorFactory.SetRate r; cfg = [mode; interval ms (0 = default 5);
+   InitialRate (0 = default 1000000)] *)
+Definition dec_pcr (st : pcr) (opc : Z) (a : list Z) : pcr :=
+  if opc =? 1 then pcr_step st PcEnq
+  else if opc =? 2 then pcr_step st PcRelease
+  else if opc =? 4 then pcr_step st (PcSetRate (arg 0 a))
+  else st.
+Definition pcr_cfg_iv (cfg : list Z) : Z := if arg 1 cfg =? 0 then 5 else arg 1 cfg.
+Definition pcr_cfg_rate (cfg : list Z) : Z := if arg 2 cfg =? 0 then 1000000 else arg 2 cfg.
 Definition dec_h (st : hist) (opc : Z) (a : list Z) : hist :=
   if opc =? 1 then h_step true st (HAdd (arg 0 a) (arg 1 a) (argb 2 a) (arg 3 a))
   else if opc =? 2 then h_step true st (HAckTw (arg 0 a) (argb 1 a))
@@ -134,6 +154,8 @@ Definition model_ok (c : c12case) : bool :=
   else if (comp =? 13) || (comp =? 14) then run_cmp dec_fq (fun st => [fst st]) (0, false) tr
   else if comp =? 15 then run_cmp dec_h h_sizes h_init tr
   else if comp =? 16 then run_cmp dec_gw gw_sizes gw_init tr
+  else if comp =? 17 then run_cmp dec_lbs lbs_sizes lbs_init tr
+  else if comp =? 18 then run_cmp dec_pcr pcr_sizes (pcr_init (pcr_cfg_rate cfg) (pcr_cfg_iv cfg)) tr
   else false.
 
 Definition c12_mismatches (cases : list c12case) : list nat :=
@@ -218,6 +240,20 @@ Definition spec_code (c : c12case) : Z :=
       (* writers <= currently bound streams; 1601 = the excess appears after an Unbind, 1603 = without any *)
       spec_fold (fun (s : list Z * bool) opc a => (set_upd 1 2 (fst s) opc a, snd s || (opc =? 2)))
                 (fun s o => if arg 0 o <=? zlen (fst s) then 0 else if snd s then 1601 else 1603) ([], false) tr
+    else if comp =? 17 then
+      (* cfg = [1; via]: the pacing rate is far above the load and every sample is taken after the
+         driver let the pacer settle (phase ends included): nothing may be held there, whatever was
+         done to the streams of the queued packets (theorem C12_leakybucket_streams_drain) *)
+      spec_fold (fun (u : unit) _ _ => u) (fun _ o => bool_code (arg 0 o =? 0) 1701) tt tr
+    else if comp =? 18 then
+      (* cfg = [1; interval; initial rate]: the load is far below the CONFIGURED rate (the last SetRate)
+         and every sample is taken after the time that rate needs, many times over: nothing may be held
+         (1801).  1805: the bucket the limiter was given is shallower than one interval of the rate it
+         was given - the precondition of C12_pacing_below_rate_drains fails, the interceptor cannot
+         pass the configured rate (obs = [held; rate; depth]) *)
+      spec_fold (fun (u : unit) _ _ => u)
+                (fun _ o => if negb (arg 0 o =? 0) then 1801
+                            else bool_code (arg 1 o * pcr_cfg_iv cfg / 1000 <=? arg 2 o) 1805) tt tr
     else 9999 in
   if negb (bound_code =? 0) then bound_code
   (* The growth heuristic (strict growth over three identical steady-state phases) is applied only to
@@ -227,7 +263,10 @@ Definition spec_code (c : c12case) : Z :=
      may legitimately still be filling (arrival map up to 2^15, LRU up to 250) or cycle (flexfec media
      buffer modulo NumMediaPackets), so three phase ends can increase without any leak - the
      heuristic gave false alarms 502 / 602 / 1102 in the thorough tier and was withdrawn there;
-     a real leak exceeds the hard bound and differs from the model's size (mismatch). *)
+     a real leak exceeds the hard bound and differs from the model's size (mismatch).
+     Components 17 / 18 (the pacers with streams / with the real limiter) are only driven in the
+     regime where the code provably drains: "nothing held" is a hard bound at every sample there
+     (1701 / 1801), no growth heuristic is needed. *)
   else if ((comp =? 13) || (comp =? 14) || (comp =? 15)) && grows3 (marks tr) then
     if (comp =? 13) || (comp =? 14) then (if arg 0 cfg =? 1 then 100 * comp + 4 else 100 * comp + 2)
     else if comp =? 15 then (if has_op 2 tr || has_op 3 tr then 1503 else 1502)
